@@ -353,8 +353,10 @@ def rule_distinct_sources(ctx: Ctx) -> None:
             q = ap
             while parent(q) is not None and parent(q) is not f:
                 pq = parent(q)
-                if isinstance(pq, ast.If) and any(q is b for b in pq.orelse) and any(t in list(ast.walk(ast.Module(body=pq.body, type_ignores=[]))) for t in tested):
-                    alt = True
+                if isinstance(pq, ast.If):
+                    mine, other_arm = (pq.orelse, pq.body) if any(q is b for b in pq.orelse) else (pq.body, pq.orelse) if any(q is b for b in pq.body) else (None, None)
+                    if other_arm and any(any(t is y for y in ast.walk(ast.Module(body=other_arm, type_ignores=[]))) for t in tested):
+                        alt = True
                 q = pq
             if alt:
                 ctx.ok("distinct.source", m, ap, what=f"{f.name}: untested append is the repetitions-allowed alternative of a tested one")
@@ -481,7 +483,7 @@ def rule_iso_bounded(ctx: Ctx) -> None:
                         break
                     if isinstance(blk, ast.While) and name == "body":
                         t = norm(blk.test)
-                        if f"len({v.id}) < {N}" in t and isinstance(blk.test, (ast.BoolOp, ast.Compare)) and \
+                        if (f"len({v.id}) < {N}" in t or f"{N} > len({v.id})" in t) and isinstance(blk.test, (ast.BoolOp, ast.Compare)) and \
                                 (not isinstance(blk.test, ast.BoolOp) or isinstance(blk.test.op, ast.And)):
                             ok = True
                             q = fn
